@@ -17,7 +17,11 @@ pub fn run(args: &[String], out: &mut impl Write) {
             let from: usize = args[1].parse().unwrap();
             let to: usize = args[2].parse().unwrap();
             for i in from..to {
-                writeln!(out, "{} {}", i, h::get_var_name(i)).unwrap();
+                // a panic of the allocator is data: `<id> !<message>`
+                match std::panic::catch_unwind(|| h::get_var_name(i)) {
+                    Ok(n) => writeln!(out, "{} {}", i, n).unwrap(),
+                    Err(e) => writeln!(out, "{} !{}", i, crate::panic_msg(e).replace('\n', " ")).unwrap(),
+                }
             }
         }
         "escape" => {
